@@ -37,6 +37,7 @@ Code details
 ~~~~~~~~~~~~
 """
 import copy
+import re
 from typing import Iterable
 
 import numpy as np
@@ -108,6 +109,16 @@ def _format_value(v, tdm=False):
 
     if isinstance(v, complex):
         return "{}{}{}j".format(v.real, "+-"[int(v.imag < 0)], np.abs(v.imag))
+
+    if isinstance(v, sym.Expr):
+        # the expression contains free parameters: enclose each of them in braces,
+        # matching whole identifiers only (not parts of other names or of numbers)
+        names = {str(p) for p in v.free_symbols}
+        return re.sub(
+            r"(?<![0-9A-Za-z_.])[A-Za-z_][0-9A-Za-z_]*",
+            lambda m: "{" + m.group(0) + "}" if m.group(0) in names else m.group(0),
+            str(v),
+        )
 
     # booleans, ints and floats (Python or NumPy scalars)
     return "{}".format(v)
@@ -418,14 +429,6 @@ class BlackbirdProgram:
                             script.insert(array_insert + idx, line)
 
                         array_insert += len(bb_array)
-
-                    elif isinstance(v, sym.Expr):
-                        # argument contains free parameters
-                        res = str(v)
-                        for p in v.free_symbols:
-                            res = res.replace(str(p), "{"+str(p)+"}")
-
-                        args.append(res)
 
                     else:
                         # strings, complex numbers, lists, booleans, ints, floats.
